@@ -25,7 +25,7 @@ func init() {
 		ID:    "C12",
 		Level: "fault_enumeration",
 		Rule: "a real p9p.CSession client with P in {1,2,3,5,8,16} pending calls (unique ids) against a scripted fake server on a fault-injecting in-memory connection. Fault enumeration over a recorded fault-free run of the same scenario: the inbound stream is failed at EVERY byte offset k of the reply stream (error and EOF flavours), " +
-			"the connection is closed by the peer after every number of replies, EVERY client write j is failed (0 or partial bytes passed on), the session context is cancelled after every number of replies, and every single pending call is cancelled on its own; read errors come as plain errors and as permanent net.Errors (a client that keeps reading a permanently failed connection is detected by counting its reads after the failure, not by a timer); a call with a deadline context completes, the connection's (virtual) clock then passes that deadline, and a call without deadline must still go through on a connection that honours write deadlines. " +
+			"the connection is closed by the peer after every number of replies, EVERY client write j is failed (0 or partial bytes passed on), the session context is cancelled after every number of replies, and every single pending call is cancelled on its own; read errors come as plain errors and as permanent net.Errors (a client that keeps reading a permanently failed connection is detected by counting its reads after the failure, not by a timer); a call with a deadline context completes, the connection's (virtual) clock then passes that deadline, and a call without deadline must still go through on a connection that honours write deadlines; while one request write is stalled inside the connection, further calls are issued and their contexts ended (or had ended before): each must return. " +
 			"Hostile-peer sampling: valid frames with unknown / repeated / NOTAG / neighbouring tags, every R- and T-type as reply to every request kind, Rversion mid-session, frames from the abnormal classes (length prefix 0-3, truncated body, hostile inner lengths, unknown type, oversize) and pure garbage, followed or not by the correct replies. " +
 			"Oracle: the worker process survives (a crash is attributed to the logged case); at quiescence every pending call has returned; calls whose reply arrived intact before the fault return their own id, the others an error; a later call returns an error; a per-call cancel returns and leaves the other calls' results intact; a wrong-typed reply surfaces as an error. " +
 			"non-trivial = >= 1 call pending at the fault / hostile frame; distinct by (fault kind, index, pending count) or (frame class, request kind, pending count)",
@@ -39,7 +39,7 @@ func init() {
 		Shards:    shards(8, 16),
 		Timeout:   timeouts(4*time.Minute, 40*time.Minute),
 		MinEvals:  200,
-		Required:  []string{"fault:read-error", "fault:read-eof", "fault:peer-close", "fault:write-fail", "fault:ctx-cancel", "fault:call-cancel", "hostile:unknown-tag", "hostile:repeated-tag", "hostile:wrong-type", "hostile:abnormal-frame", "hostile:garbage", "hostile:overlong-rread", "fault:local-failure", "fault:read-neterror", "fault:deadline-then-plain", "later_call_checked", "pending_calls_returned"},
+		Required:  []string{"fault:read-error", "fault:read-eof", "fault:peer-close", "fault:write-fail", "fault:ctx-cancel", "fault:call-cancel", "hostile:unknown-tag", "hostile:repeated-tag", "hostile:wrong-type", "hostile:abnormal-frame", "hostile:garbage", "hostile:overlong-rread", "fault:local-failure", "fault:read-neterror", "fault:deadline-then-plain", "fault:cancel-while-writer-busy", "later_call_checked", "pending_calls_returned"},
 		Run:       runC12,
 	})
 }
@@ -211,6 +211,12 @@ func runC12(w *mon.W) {
 			idx++
 			if w.Mine(idx) {
 				c12DeadlineThenPlain(w, P, variant, s)
+			}
+		}
+		for variant := 0; variant < 6; variant++ {
+			idx++
+			if w.Mine(idx) {
+				c12CancelWhileWriterBusy(w, P, variant, s)
 			}
 		}
 	}
@@ -477,6 +483,132 @@ func c12WriteFault(w *mon.W, P, j, partial, scen int) {
 		return
 	}
 	w.NT(fmt.Sprintf("write/%d/%d/%d", P, j, partial))
+}
+
+// c12CancelWhileWriterBusy: the transport is stuck writing one call's request (the peer does
+// not drain); other calls are issued meanwhile and cannot even be handed to the transport.
+// Each of them must still return promptly when its own context ends, also one whose context
+// had ended before it was issued. Afterwards the stalled write completes and everybody
+// else gets its own reply.
+func c12CancelWhileWriterBusy(w *mon.W, P, variant, scen int) {
+	desc := fmt.Sprintf("scenario %d: %d pending calls, a request write stalls, further calls are issued and cancelled meanwhile (variant %d)", scen, P, variant)
+	w.Case("C12 %s", desc)
+	e := newC12(w, desc)
+	if e == nil {
+		return
+	}
+	defer e.h.close()
+	w.Eval()
+	w.Count("fault:cancel-while-writer-busy", 1)
+	cs := e.launch(P, c12kinds)
+	if !settle() || !e.absorb(cs) {
+		return
+	}
+	// the next write parks (and then goes through: nothing fails in this scenario)
+	_, w0 := e.h.fault.Counts()
+	e.h.fault.WriteFailAt = w0 + 1
+	e.h.fault.WriteFailOnce = true
+	e.h.fault.WritePassAfterGate = true
+	e.h.fault.WriteGate = make(chan struct{})
+	e.h.fault.WriteParked = make(chan struct{})
+	gateOpen := false
+	openGate := func() {
+		if !gateOpen {
+			gateOpen = true
+			close(e.h.fault.WriteGate)
+		}
+	}
+	defer openGate()
+	a := e.launch(1, []callKind{ckStat})[0]
+	if q := mon.AwaitQuiesce(e.h.fault.WriteParked); !q.Done {
+		w.Inconclusive("the stalled write was never reached")
+		return
+	}
+	// calls issued while the transport is busy
+	n := 1 + variant%3
+	var late []*c12call
+	for i := 0; i < n; i++ {
+		c := &c12call{uid: len(e.calls) + 1, kind: c12kinds[i%len(c12kinds)]}
+		c.ctx, c.cancel = context.WithCancel(context.Background())
+		if variant >= 3 && i == 0 {
+			c.cancel() // already ended when issued
+		}
+		e.calls = append(e.calls, c)
+		late = append(late, c)
+		go func(c *c12call) {
+			r := doCall(c.ctx, e.h.sess, c.kind, c.uid)
+			e.mu.Lock()
+			c.res, c.done = r, true
+			e.mu.Unlock()
+		}(c)
+	}
+	if !settle() {
+		w.Inconclusive("watchdog")
+		return
+	}
+	for _, c := range late {
+		c.cancel()
+	}
+	if !settle() {
+		w.Inconclusive("watchdog")
+		return
+	}
+	e.mu.Lock()
+	for _, c := range late {
+		if !c.done {
+			e.mu.Unlock()
+			e.bad("hang", "cancelled-call-did-not-return:writer-busy", "call uid=%d, issued while the transport was writing another request, has not returned although its context ended", c.uid)
+			return
+		}
+		if c.res.err == nil {
+			e.mu.Unlock()
+			e.bad("mismatch", "success-without-reply", "call uid=%d returned success although no request of it was ever answered", c.uid)
+			return
+		}
+	}
+	if a.done {
+		e.mu.Unlock()
+		e.bad("mismatch", "cancel-disturbed-other-call", "the call whose request is being written returned (uid=%d err=%v) when other calls were cancelled", a.res.uid, a.res.err)
+		return
+	}
+	e.mu.Unlock()
+	// the peer drains again
+	openGate()
+	if !settle() {
+		w.Inconclusive("watchdog")
+		return
+	}
+	reqs := e.h.take()
+	for _, rq := range reqs {
+		if uidOfRequest(rq) == a.uid {
+			a.req = rq
+		}
+		// a cancelled call's request may or may not reach the wire afterwards; it is answered like any other
+		e.h.reply(replyFor(rq, uidOfRequest(rq)))
+	}
+	if a.req == nil {
+		e.bad("mismatch", "request-lost", "the request whose write had stalled never arrived after the stall ended (%d requests arrived)", len(reqs))
+		return
+	}
+	for _, c := range cs {
+		e.h.reply(replyFor(c.req, c.uid))
+	}
+	if !settle() {
+		w.Inconclusive("watchdog")
+		return
+	}
+	if !e.allReturned("cancel while writer busy") {
+		return
+	}
+	e.mu.Lock()
+	defer e.mu.Unlock()
+	for _, c := range append(append([]*c12call{}, cs...), a) {
+		if c.res.err != nil || c.res.uid != c.uid {
+			e.bad("mismatch", "cancel-disturbed-other-call", "after calls were cancelled while the writer was busy, call uid=%d returned uid=%d err=%v", c.uid, c.res.uid, c.res.err)
+			return
+		}
+	}
+	w.NT(fmt.Sprintf("cancelbusy/%d/%d", P, variant))
 }
 
 func c12CallCancel(w *mon.W, P, i, scen int) {
